@@ -276,6 +276,9 @@ struct Tool {
     if (r.chance(0.3)) { p.nmol = 4 + (int)r.below(5); p.sparse_mask = (long)(r.next() & 0xfff); if (r.chance(0.3)) p.sparse_mask = 0xaaa; }
     c05tool::tool_generate(p, r, tier);
     if ((p.fmt == 1 || p.fmt == 3) && r.chance(0.12)) p.corrupt_frame = 1 + (int)r.below((uint64_t)p.F);  // fault: a damaged frame in the file
+#if defined(SIM_SAN)
+    p.corrupt_frame = 0;  // see c05_lib.cc: exceptions unwinding a coroutine confuse ASan's stack poisoning
+#endif
     if (!p.lattice && r.chance(0.3)) { p.top_fmt = 1 + (int)r.below(3); if (p.top_fmt == 3 && p.fmt == 3) p.top_fmt = 1; }  // xyz has no box: not for both files
     p.pick_strategy(r);
     return p;
